@@ -14,6 +14,7 @@ func TestVerifReplay(t *testing.T) {
 		"VerifC15Quick":          VerifC15Quick,
 		"VerifC15Thorough":       VerifC15Thorough,
 		"VerifC15DeepQuick":      VerifC15DeepQuick,
+		"VerifC15Stale":          VerifC15Stale,
 		"VerifC15Deep":           VerifC15Deep,
 	})
 }
